@@ -1,3 +1,6 @@
 import TinsModel.Props.C01
 #print axioms Tins.Props.C01.cursor_safe
 #print axioms Tins.Props.C01.chain_parse_safe
+#print axioms Tins.Props.C01.entry_scan_complete
+#print axioms Tins.Props.C01.entry_points_covered
+#print axioms Tins.Props.C01.wire_modelled_safe
